@@ -40,13 +40,14 @@ type Engine struct {
 	exprMemo map[token.Pos]string
 	// package-level error variables initialised once with errors.New and never reassigned
 	constErr map[string]int64
+	specReads map[string][]string
 }
 
 func NewEngine(repo string) *Engine {
 	return &Engine{repo: repo, classes: map[string]*HeapClass{}, bases: map[string]*Heap{}, leafCls: map[string][]*HeapClass{},
 		typeIDs: map[string]int64{}, typeByID: map[int64]types.Type{}, strSnap: map[int]strSnap{}, funcs: map[string]*ssa.Function{},
 		inlineLimit: 200, inlineExternal: map[string]bool{}, fileOf: map[string]*ast.File{}, exprMemo: map[token.Pos]string{},
-		pkgByPath: map[string]*packages.Package{}, constErr: map[string]int64{}}
+		pkgByPath: map[string]*packages.Package{}, constErr: map[string]int64{}, specReads: map[string][]string{}}
 }
 
 // contractFiles finds all contract files under repo/pkg.
